@@ -17,12 +17,27 @@ def run(repo):
     freq = [int(x) for x in exlib.read(repo, "huffman/data/frequencies").split()]
     s = exlib.HEADER + "namespace Tw.Gen.Huffman\n\n"
     s += "def EOF : Nat := %d\ndef NUM_SYMBOLS : Nat := %d\ndef NUM_NODES : Nat := %d\ndef ROOT_IDX : Nat := %d\n\n" % (eof, nsym, nnodes, root)
-    s += "/-- `INSTANCE.nodes` of %s: `(children[0], children[1])` -/\n" % rel
-    s += "def table : Array (Nat × Nat) := #[\n"
-    rows = []
+    for a, b in nodes:
+        if not (0 <= int(a) < 65536 and 0 <= int(b) < 65536):
+            raise exlib.ExtractError("Node entry out of u16 range in %s" % rel)
+    # The table is emitted as one big numeral (entry i occupies bits 32*i .. 32*i+31:
+    # children[0] in the high half, children[1] in the low half) so that the Lean kernel can look an
+    # entry up with two divisions instead of walking a 513-element literal.  The listing below the
+    # numeral is a comment for the reader; the driver op `table` prints the decoded entries and the
+    # correspondence compares everything observable of them with the real crate.
+    big = 0
+    for i, (a, b) in enumerate(nodes):
+        big |= ((int(a) << 16) | int(b)) << (32 * i)
+    s += "def numNodesInSource : Nat := %d\n\n" % len(nodes)
+    s += "/-- `INSTANCE.nodes` of %s packed: entry `i` = bits `32*i .. 32*i+31` -/\n" % rel
+    s += "def tableNat : Nat :=\n  0x%x\n\n" % big
+    s += "/-- `INSTANCE.nodes[i]` as `(children[0], children[1])` -/\n"
+    s += "def entry (i : Nat) : Nat × Nat :=\n  ((tableNat / 2 ^ (32 * i + 16)) % 65536, (tableNat / 2 ^ (32 * i)) % 65536)\n\n"
+    s += "def table : Array (Nat × Nat) := ((List.range %d).map entry).toArray\n\n" % len(nodes)
+    s += "/- listing (index: children[0], children[1]):\n"
     for i in range(0, len(nodes), 8):
-        rows.append("  " + ", ".join("(%s, %s)" % n for n in nodes[i:i + 8]))
-    s += ",\n".join(rows) + "]\n\n"
+        s += "  %3d: " % i + ", ".join("(%s, %s)" % n for n in nodes[i:i + 8]) + "\n"
+    s += "-/\n\n"
     s += "/-- huffman/data/frequencies -/\ndef frequencies : List Nat := %s\n\n" % exlib.lean_nat_list(freq)
     for fn in ("compress_impl_unsafe", "decompress_unsafe", "to_symbol_repr", "to_node"):
         body = exlib.fn_body(lib, fn, 0, "huffman/src/lib.rs")
